@@ -300,6 +300,7 @@ def replay(beh_path, mode="inline", nproc=NPROC, base_seed=None, fs=True, timeou
     if n == 0:
         return []
     base_seed = seed() if base_seed is None else base_seed
+    base_seed += 101 * int(os.environ.get("VERIF_SEED_SHIFT", "0"))
     jobs = [(i, min(chunk, n - i)) for i in range(0, n, chunk)]
     results = []
     running = []
